@@ -14,6 +14,7 @@ import re
 import featlib
 from featlib import Check, walk, render, is_call, rel
 import dfl
+import norm_c13 as norm
 from dfl import Resolver, Path, short, strip_targs, last_comp, callee_name, is_nonconst_ref
 
 R = featlib.repo_path
@@ -36,7 +37,7 @@ def clskey(fn):
 
 def stmt_calls(fn):
     """all call-like nodes of a function body"""
-    return [n for n in fn.nodes() if is_call(n)]
+    return [n for n in dfl.own_nodes(fn) if is_call(n)]
 
 
 # =====================================================================================================
@@ -204,10 +205,11 @@ def check_lafem_transfer(ck, facts):
                     if c.get("k") == "MCall" and callee_name(c) == "convert" and (c.get("obj") or {}).get("k") == "Member" and c["obj"].get("n") in kind_of_field and len(c.get("a", [])) == 1:
                         a0 = c["a"][0]
                         got = "?"
-                        if a0.get("k") == "MCall" and callee_name(a0) in ACCESSOR and (a0.get("obj") or {}).get("k") == "Ref" and a0["obj"].get("d") == od:
-                            got = ACCESSOR[callee_name(a0)]
-                        elif a0.get("k") == "Member" and a0.get("n") in kind_of_field and (a0.get("b") or {}).get("d") == od:
-                            got = kind_of_field[a0["n"]]
+                        st0 = Resolver(f).path(a0).steps
+                        if len(st0) == 2 and st0[0] == ("param", od) and st0[1][0] == "call" and st0[1][1] in ACCESSOR:
+                            got = ACCESSOR[st0[1][1]]
+                        elif len(st0) == 2 and st0[0] == ("param", od) and st0[1][0] == "field" and st0[1][1] in kind_of_field:
+                            got = kind_of_field[st0[1][1]]
                         pairs.append((kind_of_field[c["obj"]["n"]], got))
                 if pairs:
                     key = "%s::convert" % ckey
@@ -293,6 +295,12 @@ def check_global_transfer(ck, facts):
             coarse = ("local", pd[1]) if len(pd) > 1 else None
             locs = [c for c in stmt_calls(f) if c.get("k") == "MCall" and strip_targs(c.get("ccls", "")) == "FEAT::LAFEM::Transfer"
                     and callee_name(c) in ("prol", "rest", "trunc", "prol_recv", "rest_send", "trunc_send", "prol_cancel")]
+            # callees that may do part of the protocol (own member helpers, functions receiving a vector of this function mutably): a verdict
+            # "X is missing" is definite only if there is none (otherwise: not modelled -> the run with helpers inlined decides)
+            opaque = [c for c in stmt_calls(f) if c not in locs and not c.get("noreturn") and c.get("callee") != "FEAT::assertion" and c.get("callee") not in dfl.MOVE_FNS and (
+                (c.get("k") == "MCall" and (c.get("obj") is None or c["obj"].get("k") == "This") and is_transfer_cls(c.get("ccls")) and callee_name(c) not in ACCESSOR) or
+                (c.get("k") == "Call" and any(pt_ is not None and is_nonconst_ref(pt_) for a_, pn_, pt_ in dfl.call_args_with_params(c, f))))]
+            undecided = []
             if not locs:
                 eff = [c for c in stmt_calls(f) if not c.get("noreturn") and c.get("callee") != "FEAT::assertion" and not c.get("cconst")]
                 if eff:
@@ -336,9 +344,13 @@ def check_global_transfer(ck, facts):
                             if trg == buf and (want == "split_recv" or src == coarse) and cfg.stmt_dominates(m["i"], c["i"]):
                                 good.append(m)
                         if not good:
-                            ok = False
-                            detail.append("%s: prolongates buffer %s which is not filled by muxer %s(vec_trg=%s%s) on every path before" % (
-                                where, buf[1], want, buf[1], ", vec_src=coarse" if want == "split" else ""))
+                            msg_ = "%s: prolongates buffer %s which is not filled by muxer %s(vec_trg=%s%s) on every path before" % (
+                                where, buf[1], want, buf[1], ", vec_src=coarse" if want == "split" else "")
+                            if opaque:
+                                undecided.append(msg_)
+                            else:
+                                ok = False
+                                detail.append(msg_)
                     else:
                         want = "join" if out_pos is not None else "join_send"
 
@@ -349,9 +361,13 @@ def check_global_transfer(ck, facts):
                                 return False
                             return want == "join_send" or vec_id(dfl.arg_by_param(m, "vec_trg"), rs) == coarse
                         if not after_on_all_paths(f, c, is_join):
-                            ok = False
-                            detail.append("%s: buffer %s is not handed to muxer %s(vec_src=%s%s) on every path afterwards" % (
-                                where, buf[1], want, buf[1], ", vec_trg=coarse" if want == "join" else ""))
+                            msg_ = "%s: buffer %s is not handed to muxer %s(vec_src=%s%s) on every path afterwards" % (
+                                where, buf[1], want, buf[1], ", vec_trg=coarse" if want == "join" else "")
+                            if opaque:
+                                undecided.append(msg_)
+                            else:
+                                ok = False
+                                detail.append(msg_)
                 else:
                     ok = False
                     detail.append("%s: coarse operand is %s" % (where, render(a[1])))
@@ -359,9 +375,9 @@ def check_global_transfer(ck, facts):
                     od = pd[out_pos]
 
                     def is_sync(m, od=od):
-                        return m.get("k") == "MCall" and callee_name(m) == "sync_0" and (m.get("obj") or {}).get("k") == "Ref" and m["obj"].get("d") == od
+                        return m.get("k") == "MCall" and callee_name(m) == "sync_0" and m.get("obj") is not None and rs.path(m["obj"]).steps == (("param", od),)
                     if not after_on_all_paths(f, c, is_sync):
-                        other = dfl.unmodelled_mutable_uses(f, rs, dfl.Path((("param", od),)), after=c, modelled=("sync_0", "local", "join", "split", "split_recv"))
+                        other = dfl.unmodelled_mutable_uses(f, rs, dfl.Path((("param", od),)), after=c, modelled=("sync_0", "local", "join", "split", "split_recv")) or opaque
                         if other:
                             ck.incomplete("E4.global-delegate", "%s: no sync_0 on the result after %s, but the result is handed to %s which is not modelled" % (key, where, render(other[0])[:60]))
                             continue
@@ -375,8 +391,14 @@ def check_global_transfer(ck, facts):
             ids = {c["i"] for c in locs}
             mp, bad = cfg.must_pass(lambda n: n.get("i") in ids)
             if not mp:
-                ok = False
-                detail.append("a path reaches a normal return without applying the local operator")
+                if opaque:
+                    undecided.append("a path reaches a normal return without a direct application of the local operator")
+                else:
+                    ok = False
+                    detail.append("a path reaches a normal return without applying the local operator")
+            if undecided and ok:
+                ck.incomplete("E4.global-delegate", "%s: %s; part of the protocol may be done by %s, which is not modelled" % (key, "; ".join(undecided)[:300], render(opaque[0])[:50]))
+                continue
             ck.ob("E4.global-delegate", key, ok, "; ".join(detail) or "%d local %s call(s), muxer/sync protocol as documented" % (len(locs), lmeth),
                   f.file, f.line, sample={"local_calls": [render(c)[:100] for c in locs]})
 
@@ -452,6 +474,10 @@ def classify_rhs(rs, rhs):
     return ("opaque", None, render(rhs)[:80])
 
 
+lambda_body_of = dfl.lambda_body_of
+lambda_touched_paths = dfl.lambda_touched_paths
+
+
 def function_events(fn):
     """per CFG block the ordered list of store / modify / rebind events of a function"""
     rs = Resolver(fn)
@@ -514,6 +540,11 @@ def function_events(fn):
                 continue
             if n.get("callee") in dfl.MOVE_FNS:
                 continue
+            lam = lambda_body_of(rs, n)
+            if lam is not None:
+                for p_ in lambda_touched_paths(rs, fn, lam):
+                    evs.append(Ev("mod", p_, n, definite=False))      # the lambda body is not followed here (the inlined run does)
+                # (objects handed to the closure as arguments are handled below like those of any unmodelled callee)
             if k == "OpCall" and n.get("op") == "=" and len(n.get("a", [])) == 2:
                 evs.append(Ev("store", rs.path(n["a"][0]), n, src=classify_rhs(rs, n["a"][1])))
                 continue
@@ -851,6 +882,11 @@ def check_weights(ck, fn, fkey, rule="E7.weights-inverted-once"):
                     shrinks.append((n, st))
                     continue
                 # anything else that may write the weights or the weighted object: a callee / lambda that is not modelled
+                lam = lambda_body_of(rs, n)
+                if lam is not None and st in ("raw", "synced", "inv"):
+                    for p_ in lambda_touched_paths(rs, fn, lam):
+                        if p_.related(W) or p_.related(M):
+                            wdoubt.append((ln, "%s is modified inside the lambda called by %s, whose body is not followed" % (p_, render(n)[:40])))
                 if st in ("raw", "synced", "inv"):
                     for a, pn_, pt_ in dfl.call_args_with_params(n, fn):
                         if a is recv:
@@ -1033,6 +1069,12 @@ def check_zeroed(ck, fn, fkey, rule="E7.zeroed-before-assembly"):
                         st[idx[lp]] = ("unknown", "assigned %s at line %s" % (render(rhs)[:50], n.get("l")))
                     continue
             # anything else that may write a tracked object
+            lam = lambda_body_of(rs, n) if is_call(n) else None
+            if lam is not None:
+                for p_ in lambda_touched_paths(rs, fn, lam):
+                    for t in tracked:
+                        if t.related(p_):
+                            st[idx[t]] = ("unknown", "possibly written inside the lambda called by %s at line %s" % (render(n)[:40], n.get("l")))
             if is_call(n) and n.get("callee") not in dfl.MOVE_FNS:
                 recv = dfl.receiver(n)
                 for a, pn_, pt_ in dfl.call_args_with_params(n, fn):
@@ -1126,16 +1168,19 @@ def check_candidate_weights(ck, fn, fkey, rule="E3.candidates-all-registered"):
     count = 0
     for cons, cont, den in consumers:
         loops = []
+        lranges = {}
         for L in fn.nodes():
-            if L.get("k") != "For" or L.get("c") is None:
+            if L.get("k") not in ("For", "While") or L.get("c") is None:
                 continue
-            c = L["c"]
-            if c.get("k") == "Bin" and c.get("op") == "<":
-                b = rs.value(c["rhs"])
-                while b.get("k") in ("Cast",):
-                    b = b["e"]
-                if b.get("k") == "MCall" and callee_name(b) == "size" and container_of(b.get("obj")) == cont and dfl.innermost_loop_same(par, L, L):
-                    loops.append(L)
+            lr = norm.loop_range(fn, L, par)
+            if lr is None:
+                continue
+            b = rs.value(lr["bound"])
+            while b is not None and b.get("k") in ("Cast",):
+                b = rs.value(b["e"])
+            if b is not None and b.get("k") == "MCall" and callee_name(b) == "size" and container_of(b.get("obj")) == cont:
+                loops.append(L)
+                lranges[id(L)] = lr
         key = "%s/1/%s.size()" % (fkey, render(den.get("obj"))[:40])
         if not loops:
             ck.incomplete(rule, "%s: contributions are weighted by 1/%s but no loop over the same candidate list registers them (producer not recognised)" % (key, render(den)[:40]))
@@ -1143,13 +1188,11 @@ def check_candidate_weights(ck, fn, fkey, rule="E3.candidates-all-registered"):
             continue
         problems = []
         for L in loops:
-            ini = L.get("init")
-            v = ini["vars"][0] if ini is not None and ini.get("k") == "Decl" and len(ini.get("vars", [])) == 1 else None
-            zero = v is not None and unwrap_num(rs, v.get("init")) == 0.0 if v is not None and v.get("init") is not None else False
-            inc = L.get("inc")
-            unit = inc is not None and inc.get("k") == "Un" and inc.get("op") == "++"
-            if not (zero and unit):
-                ck.incomplete(rule, "%s: the candidate loop at line %s does not start at 0 with unit stride (not modelled)" % (key, L.get("l")))
+            lr = lranges[id(L)]
+            v = rs.var(lr["var"])
+            zero = unwrap_num(rs, lr["start"]) == 0.0
+            if not (zero and lr["sign"] > 0 and lr["cmp"] in ("<", "!=") and v is not None):
+                ck.incomplete(rule, "%s: the candidate loop at line %s does not run from 0 up to the number of candidates with unit stride (not modelled)" % (key, L.get("l")))
                 continue
             regs = [x for x in walk(L.get("body")) if x.get("k") == "MCall" and callee_name(x) in ("push_back", "emplace_back") and
                     any(y.get("k") == "Ref" and y.get("d") == v["d"] for a in x.get("a", []) for y in walk(a))]
@@ -1188,48 +1231,40 @@ class GT:
     index kinds: ('cellP', S) cell number of the (possibly permuted) mesh of side S · ('cell2', S) cell number in the
     2-level ordering · ('child',) · ('ldof', S) local dof of side S · ('cub', d) point of cubature rule d."""
 
-    def __init__(self, ck, fn, fkey):
+    def __init__(self, ck, fn, fkey, parent=None, bind=None, depth=0):
+        """parent / bind: this context is the body of a helper called from `parent` with its parameters bound to the caller's argument
+        expressions (bind: parameter decl -> argument node of the caller); sides, index kinds, permutation identities and guards of the
+        helper's parameters are those of the bound arguments, so that index kinds flow through the helper's return value."""
         self.ck, self.fn, self.fkey = ck, fn, fkey
+        self.parent, self.bind, self.depth = parent, (bind or {}), depth
+        self._sub = {}
         self.rs = Resolver(fn)
         self.par = dfl.parents(fn)
         self.pside = {}
         for p in fn.params:
             t = fn.type(p["t"])
-            if "Space" in t or "space" in p["n"]:
+            if parent is None and ("Space" in t or "space" in p["n"]):
                 if "fine" in p["n"]:
                     self.pside[p["d"]] = "F"
                 elif "coarse" in p["n"]:
                     self.pside[p["d"]] = "C"
         self._fc = {}
-        if sorted(self.pside.values()) != ["C", "F"]:
+        if parent is None and sorted(self.pside.values()) != ["C", "F"]:
             # renamed parameters: every GridTransfer routine takes (..., fine space, coarse space, cubature) in this order
             sp = [p for p in fn.params if re.search(r"\bSpace::", fn.type(p["t"])) and "Cubature" not in fn.type(p["t"])]
             if len(sp) == 2:
                 self.pside = {sp[0]["d"]: "F", sp[1]["d"]: "C"}
         self.filled = {}       # data local decl -> set of sides of the evaluators that fill it
         self.loopvar = {}      # decl -> (For node, bound expr)
+        mods_ = norm._mods_of(fn)
         for n in fn.nodes():
-            if n.get("k") == "For":
-                ini, c = n.get("init"), n.get("c")
-                v = None
-                if ini is not None and ini.get("k") == "Decl" and len(ini.get("vars", [])) == 1:
-                    v = ini["vars"][0]
-                if v is not None and c is not None and c.get("k") == "Bin" and c.get("op") == "<" and self.strip_cast(c["lhs"]).get("k") == "Ref" and self.strip_cast(c["lhs"]).get("d") == v["d"]:
-                    self.loopvar[v["d"]] = (n, c["rhs"])
-            elif n.get("k") == "While":
-                # Index v(0); while(v < E) { ...; ++v; }
-                c = n.get("c")
-                if c is not None and c.get("k") == "Bin" and c.get("op") == "<":
-                    lv = self.strip_cast(c["lhs"])
-                    if lv.get("k") == "Ref" and lv.get("dk") == "local":
-                        incs = [x for x in walk(n.get("body")) if x.get("k") == "Un" and x.get("op") == "++" and x["e"].get("k") == "Ref" and x["e"].get("d") == lv["d"]]
-                        others = [x for x in fn.nodes() if (x.get("k") == "Assign" and x["lhs"].get("k") == "Ref" and x["lhs"].get("d") == lv["d"]) or
-                                  (x.get("k") == "Un" and x.get("op") in ("++", "--") and x["e"].get("k") == "Ref" and x["e"].get("d") == lv["d"] and x not in incs)]
-                        var = self.rs.var(lv["d"])
-                        ini = self.strip_cast(var.get("init")) if var is not None and var.get("init") is not None else None
-                        if len(incs) == 1 and not others and ini is not None and ini.get("k") == "Int" and str(ini.get("v")) == "0" \
-                                and not any(w.get("k") in ("Continue",) for w in walk(n.get("body"))):
-                            self.loopvar[lv["d"]] = (n, c["rhs"])
+            if n.get("k") in ("For", "While"):
+                # counting loop over [0, E) in any spelling: for / while, `<` / `!=`, bound on either side, ++v / v++ / v += 1 once per iteration
+                lr = norm.loop_range(fn, n, self.par, mods_)
+                if lr is not None and lr["sign"] > 0 and lr["cmp"] in ("<", "!="):
+                    st0 = self.strip_cast(lr["start"])
+                    if st0 is not None and st0.get("k") == "Int" and str(st0.get("v")) == "0":
+                        self.loopvar[lr["var"]] = (n, lr["bound"])
         self._vs = {}
         # evaluator fills: E(data, x)
         for _ in range(2):
@@ -1267,29 +1302,93 @@ class GT:
             return out
         for x in walk(n):
             if x.get("k") == "Ref":
-                if x.get("dk") == "param" and x.get("d") in self.pside:
+                if x.get("dk") == "param" and x.get("d") in self.bind:
+                    out |= self.parent.side(self.bind[x["d"]], depth + 1)
+                elif x.get("dk") == "param" and x.get("d") in self.pside:
                     out.add(self.pside[x["d"]])
                 elif x.get("dk") == "local":
                     out |= self.var_side(x["d"], depth)
         return out
+
+    # ---- helper inlining -------------------------------------------------------------------------
+    def cpath(self, n):
+        """access path of an expression with the parameters of inlined helpers replaced by the caller's argument paths (canonical across contexts)"""
+        p = self.rs.path(n)
+        if self.parent is None or not p.steps:
+            return p
+        root = p.steps[0]
+        if root[0] == "param" and root[1] in self.bind:
+            pp = self.parent.cpath(self.bind[root[1]])
+            return Path(pp.steps + p.steps[1:], pp.decls | p.decls, p.text)
+        if root[0] == "local":
+            return Path((("local", root[1], id(self)),) + p.steps[1:], p.decls, p.text)
+        return p
+
+    def origin(self, n):
+        """(context, node): the caller's expression a (chain of) bound helper parameter(s) stands for"""
+        n = self.strip_cast(n)
+        if n is not None and n.get("k") == "Ref" and n.get("dk") == "param" and n.get("d") in self.bind:
+            return self.parent.origin(self.bind[n["d"]])
+        return self, n
+
+    def sub_context(self, call):
+        """context of the body of a helper defined in the analysed sources (non-virtual, bounded depth), parameters bound to the call's arguments"""
+        if id(call) in self._sub:
+            return self._sub[id(call)]
+        self._sub[id(call)] = None
+        if self.depth >= 3 or call.get("k") not in ("Call", "MCall"):
+            return None
+        if call.get("k") == "MCall" and not (call.get("obj") is None or call["obj"].get("k") == "This" or call.get("cstatic")):
+            return None
+        g = norm.find_callee(self.fn.facts, call)
+        ctx = self
+        while ctx is not None:
+            if g is ctx.fn:
+                return None          # recursion
+            ctx = ctx.parent
+        if g is None or g.d.get("virtual") or len(g.params) != len(call.get("a", [])):
+            return None
+        sub = GT(self.ck, g, self.fkey, parent=self, bind={p["d"]: a for p, a in zip(g.params, call["a"])}, depth=self.depth + 1)
+        self._sub[id(call)] = sub
+        return sub
+
+    def call_kind(self, call, depth):
+        """index kind of the value a helper returns (early returns folded into conditional expressions)"""
+        sub = self.sub_context(call)
+        if sub is None:
+            return None
+        e = norm.return_expr(sub.fn, local_updates=True)
+        if e is None:
+            return None
+        return sub.kind(e, depth + 1)
 
     def side1(self, n):
         s = self.side(n)
         return next(iter(s)) if len(s) == 1 else None
 
     # ---- kinds ---------------------------------------------------------------------------------
-    def perm_kind(self, n):
-        """('perm'|'inv', side) for an expression denoting mesh.get_mesh_permutation().get_perm()/get_inv_perm()"""
+    def accessor_chain(self, n):
+        """(side of the root object | None, accessor names applied to it) — through the bound parameters of inlined helpers"""
         p = self.rs.path(n)
         names = [st[1] for st in p.steps if st[0] == "call"]
+        if not p.steps:
+            return None, names
+        root = p.steps[0]
+        if root[0] == "param" and root[1] in self.bind:
+            s, pre = self.parent.accessor_chain(self.bind[root[1]])
+            return s, pre + names
+        s = None
+        if root[0] == "param":
+            s = self.pside.get(root[1])
+        elif root[0] == "local":
+            ss = self.var_side(root[1])
+            s = next(iter(ss)) if len(ss) == 1 else None
+        return s, names
+
+    def perm_kind(self, n):
+        """('perm'|'inv', side) for an expression denoting mesh.get_mesh_permutation().get_perm()/get_inv_perm()"""
+        s, names = self.accessor_chain(n)
         if len(names) >= 2 and names[-2] == "get_mesh_permutation" and names[-1] in ("get_perm", "get_inv_perm"):
-            root = p.steps[0]
-            s = None
-            if root[0] == "param":
-                s = self.pside.get(root[1])
-            elif root[0] == "local":
-                ss = self.var_side(root[1])
-                s = next(iter(ss)) if len(ss) == 1 else None
             return ("perm" if names[-1] == "get_perm" else "inv", s)
         return None
 
@@ -1302,6 +1401,8 @@ class GT:
             return self.kind(n.get("e"), depth + 1)
         if k in ("Construct", "TempObj") and len(n.get("a", [])) == 1:
             return self.kind(n["a"][0], depth + 1)
+        if k == "Ref" and n.get("dk") == "param" and n.get("d") in self.bind:
+            return self.parent.kind(self.bind[n["d"]], depth + 1)
         if k == "Ref" and n.get("dk") == "local":
             d = n["d"]
             if d in self.loopvar:
@@ -1332,6 +1433,8 @@ class GT:
             return self.map_kind(n, depth)
         if k == "MCall" and callee_name(n) == "calc_fcell":
             return self.calc_fcell_kind(n, depth)
+        if k in ("Call", "MCall"):
+            return self.call_kind(n, depth)
         return None
 
     def if_lookup_kind(self, use, var, depth):
@@ -1394,6 +1497,8 @@ class GT:
             return None
         n = self.rs.value(n)
         k = n.get("k")
+        if k == "Ref" and n.get("dk") == "param" and n.get("d") in self.bind:
+            return self.parent.guard_formula(self.bind[n["d"]], atoms, depth + 1)
         if k == "Bool":
             return ("const", bool(n.get("v")))
         if k == "Cast":
@@ -1406,7 +1511,7 @@ class GT:
             return None if f is None or g is None else ("and" if n["op"] == "&&" else "or", f, g)
 
         def atom(obj):
-            p = self.rs.path(obj)
+            p = self.cpath(obj)
             if p.opaque():
                 return None
             if p not in atoms:
@@ -1474,7 +1579,7 @@ class GT:
             return None
         if not in_then:
             f = ("not", f)
-        P = self.rs.path(lookup.get("obj"))
+        P = self.cpath(lookup.get("obj"))
         if P not in atoms:
             if any(True for _ in atoms):
                 return ("bad", "the lookup through %s is guarded by the emptiness of %s only" % (P, ", ".join(map(repr, atoms))))
@@ -1517,19 +1622,19 @@ class GT:
         return r
 
     def _calc_fcell_kind(self, n, depth):
-        obj = n.get("obj")
+        octx, obj = self.origin(n.get("obj"))
         ok = True
         why = []
         # the mapping object is built from (fine mesh, coarse mesh)
         if obj is not None and obj.get("k") == "Ref" and obj.get("dk") == "local":
-            v = self.rs.var(obj["d"])
+            v = octx.rs.var(obj["d"])
             ini = v.get("init") if v else None
             if ini is not None and is_call(ini):
                 fm, cm = dfl.arg_by_param(ini, "fine_mesh"), dfl.arg_by_param(ini, "coarse_mesh")
-                if fm is None or cm is None or not self.side(fm) or not self.side(cm):
+                if fm is None or cm is None or not octx.side(fm) or not octx.side(cm):
                     self.ck.incomplete("E2.child-cell-map", "%s: construction %s of the coarse-fine cell mapping not understood" % (self.fkey, render(ini)[:80]))
                     return None
-                if self.side(fm) != {"F"} or self.side(cm) != {"C"}:
+                if octx.side(fm) != {"F"} or octx.side(cm) != {"C"}:
                     ok = False
                     why.append("CoarseFineCellMapping constructed from (fine_mesh=%s, coarse_mesh=%s)" % (render(fm), render(cm)))
         cc, ch = dfl.arg_by_param(n, "ccell"), dfl.arg_by_param(n, "child")
@@ -1557,6 +1662,22 @@ def fmt_kind(k):
     if k[0] == "bad":
         return "ill-formed (%s)" % k[1]
     return {"child": "child number", "cub": "cubature point index"}.get(k[0], str(k))
+
+
+def reaches_calc_fcell(fn, depth=0, seen=None):
+    """the function computes child cells with CoarseFineCellMapping::calc_fcell, directly or through helpers defined in the analysed sources"""
+    seen = seen if seen is not None else set()
+    if id(fn) in seen or depth > 3:
+        return False
+    seen.add(id(fn))
+    for c in stmt_calls(fn):
+        if callee_name(c) == "calc_fcell":
+            return True
+        if c.get("k") in ("Call", "MCall") and (c.get("cfile") or "").startswith(R("kernel/assembly/")):
+            g = norm.find_callee(fn.facts, c)
+            if g is not None and g is not fn and g.name not in PRODUCERS and reaches_calc_fcell(g, depth + 1, seen):
+                return True
+    return False
 
 
 def innermost_loop(par, n):
@@ -2089,6 +2210,18 @@ def struct_hash(fn):
     return h.hexdigest()
 
 
+MODELLED_CALLEES = set(PRODUCERS) | set(KNOWN_MUTATORS) | set(ACCESSOR) | {
+    "sync_0", "sync_1", "join", "join_send", "split", "split_recv", "component_invert", "component_product", "local", "unwrap", "assemble_matrix_2lvl",
+    "assemble_prolongation_direct", "assemble_truncation_direct", "prolongate_vector_direct", "assemble_intermesh_transfer_direct", "transfer_intermesh_vector_direct"}
+
+
+def inline_select(fn):
+    """helpers that may be inlined into fn for the typestate rules: defined in the same file, not one of the library functions the rules model by name"""
+    def select(call, g):
+        return g.file == fn.file and g.name not in MODELLED_CALLEES and not strip_targs(g.qn).startswith("FEAT::Control::Asm::VoxelAux::")
+    return select
+
+
 def analyse(ck, facts, once, grid=True):
     seen = set()
     for fn in facts.functions:
@@ -2098,13 +2231,28 @@ def analyse(ck, facts, once, grid=True):
         if sig in seen:
             continue        # another instantiation of the same template with an identical resolved body
         seen.add(sig)
-        check_rest_transpose(once, fn, fn_key(fn))
-        check_weights(once, fn, fn_key(fn))
-        check_zeroed(once, fn, fn_key(fn))
+        # the typestate rules follow objects through ONE function: if the plain run meets a callee it does not model, helpers defined in the
+        # same file (an extracted block, a local lambda) are inlined with their parameters bound and the rules are run on the inlined function
+        trial = norm.Trial(once)
+        check_rest_transpose(trial, fn, fn_key(fn))
+        check_weights(trial, fn, fn_key(fn))
+        check_zeroed(trial, fn, fn_key(fn))
+        if trial.incompletes():
+            fn2 = norm.inline_helpers(fn, inline_select(fn))
+            if fn2 is not fn:
+                trial2 = norm.Trial(once)
+                check_rest_transpose(trial2, fn2, fn_key(fn))
+                check_weights(trial2, fn2, fn_key(fn))
+                check_zeroed(trial2, fn2, fn_key(fn))
+                if len(trial2.incompletes()) < len(trial.incompletes()) or trial2.violations():
+                    trial = trial2
+        trial.commit()
         if strip_targs(fn.qn).startswith("FEAT::Assembly::GridTransfer::") and "intermesh" in (fn.name or ""):
             check_candidate_weights(once, fn, fn_key(fn) + ":" + ",".join(sorted({re.sub(r".*(Hypercube|Simplex)<(\d)>.*", r"\1\2", fn.type(p_["t"])) for p_ in fn.params if "Space::" in fn.type(p_["t"])})))
-        if grid and strip_targs(fn.qn).startswith("FEAT::Assembly::GridTransfer::") and fn.name in PRODUCERS and any(callee_name(c) == "calc_fcell" for c in stmt_calls(fn)):
-            check_grid_transfer(once, fn)
+        if grid and strip_targs(fn.qn).startswith("FEAT::Assembly::GridTransfer::") and fn.name in PRODUCERS and reaches_calc_fcell(fn):
+            # statement-level helpers of the assembler (an extracted block of prepare / scatter calls) are inlined; value-returning index helpers are
+            # followed through their return expression (GT.call_kind)
+            check_grid_transfer(once, norm.inline_helpers(fn, inline_select(fn)))
 
 
 def route_note(ck, facts):
@@ -2120,7 +2268,7 @@ def route_note(ck, facts):
     by = {}
     for fn in facts.functions:
         if fn.tk != "pattern" and strip_targs(fn.qn).startswith("FEAT::Assembly::GridTransfer::") and fn.name in ("assemble_prolongation", "prolongate_vector") \
-                and any(callee_name(c) == "calc_fcell" for c in stmt_calls(fn)):
+                and reaches_calc_fcell(fn):
             sp = tuple(sorted(short(fn.type(p["t"])) for p in fn.params if "Space::" in fn.type(p["t"])))
             by.setdefault(sp, {})[fn.name] = norm(fn)
     agree = [sp for sp, d in by.items() if len(d) == 2 and d["assemble_prolongation"] == d["prolongate_vector"]]
@@ -2134,8 +2282,9 @@ def run(tier):
     declare_rules(ck)
     once = Once(ck)
     facts = load_main(ck)
-    check_lafem_transfer(once, facts)
-    check_global_transfer(once, facts)
+    inl = norm.InlinedFacts(facts, inline_select)
+    norm.run_with_inlining(once, check_lafem_transfer, facts, inl)
+    norm.run_with_inlining(once, check_global_transfer, facts, inl)
     analyse(ck, facts, once)
     route_note(ck, facts)
     # hand-built transfers in the tutorials / applications
@@ -2158,8 +2307,9 @@ def run(tier):
         analyse(ck, f2, once)
     if tier != "quick":
         f3 = load_main(ck, alt=True)
-        check_lafem_transfer(once, f3)
-        check_global_transfer(once, f3)
+        inl3 = norm.InlinedFacts(f3, inline_select)
+        norm.run_with_inlining(once, check_lafem_transfer, f3, inl3)
+        norm.run_with_inlining(once, check_global_transfer, f3, inl3)
         analyse(ck, f3, once)
     once.flush()
     ck.assume("index-kind typing of MeshPermutation: get_perm() maps a cell index of the permuted mesh to the 2-level (refinement) ordering, get_inv_perm() back "
